@@ -589,6 +589,27 @@ def gen_cases(rng, tier):
             for tree in DEN_TREES:
                 for cfg in CFGS:
                     cases.append(mk({'cfg': list(cfg), 'am': am, 'grid': list(full), 'tree': tree, 'opds': opds}))
+    # 1d. a FIXED family (own generator, independent of the seed): every comparison and tvl_ comparison applied to two
+    #     sub-expressions that share an operand masked at every selected element, e.g. (x+y) != (x*z): after shrinking
+    #     both sides are objects with a shape, the single-True mask and different hidden values
+    import random as _random
+    frng = _random.Random(1717)
+    for full in [(3,), (2, 3)]:
+        n = int(np.prod(full, dtype=int))
+        for amk in range(2):
+            bits_ = [(i + amk) % 2 == 0 for i in range(n)] if amk == 0 else [i < 2 for i in range(n)]
+            am = {'shape': list(full), 'bits': bits_}
+            for xshape, xmask in ((full, [bool(b) for b in bits_]), (full, [True] * n), (full, 'T'), ((), 'T')):
+                xn = int(np.prod(xshape, dtype=int))
+                x = {'shape': list(xshape), 'vals': [frng.choice([-4, -2, 2, 4, 6]) for _ in range(xn)], 'mask': xmask, 'derivs': []}
+                y = {'shape': list(full), 'vals': [frng.choice([1, 3, 5]) for _ in range(n)], 'mask': 'F', 'derivs': []}
+                z = {'shape': list(full), 'vals': [frng.choice([-3, -5, 7]) for _ in range(n)], 'mask': 'F', 'derivs': []}
+                for l, r in (('add', 'mul'), ('mul', 'add'), ('sub', 'add'), ('add', 'add')):
+                    left, right = [l, ['var', 0], ['var', 1]], [r, ['var', 0], ['var', 2]]
+                    for op in list(CMP) + ['w.tvl_eq', 'w.tvl_ne', 'w.tvl_lt', 'w.tvl_le', 'w.tvl_gt', 'w.tvl_ge']:
+                        for cfg in CFGS:
+                            cases.append(mk({'cfg': list(cfg), 'am': am, 'grid': list(full), 'tree': [op, left, right],
+                                             'opds': [x, y, z]}))
     # 2. generated scenarios, the four switch settings each
     reps = 8000 if thorough else 350
     for _ in range(reps):
